@@ -1098,7 +1098,9 @@ impl ObjFiber {
             self.open_upvalues = {
                 let mut borrowed_upvalue = upvalue.borrow_mut();
                 borrowed_upvalue.close();
-                borrowed_upvalue.next
+                // A closed upvalue is no longer part of the list: keeping the link would keep every
+                // upvalue opened below it (and what those hold) reachable from this one.
+                borrowed_upvalue.next.take()
             };
         }
     }
